@@ -138,6 +138,52 @@ static char* freshResult(const char* text, size_t n)
   return resultString(ok, parser, element);
 }
 
+
+// "the same answer" for the reuse / file flags: result kind, line, column and the dump - never the wording of a message
+// (err <line> <column> <message>: the first three fields; serr <message>: the kind only, the position inside the
+// wrapper's text is judged by the check)
+static bool sameAnswer(const char* a, const char* b)
+{
+  if(!strncmp(a, "err ", 4) && !strncmp(b, "err ", 4))
+  {
+    int sp = 0; size_t i = 0;
+    for(; a[i] && a[i] == b[i]; ++i)
+      if(a[i] == ' ' && ++sp == 3) return true;
+    return false;
+  }
+  if(!strncmp(a, "serr ", 5) && !strncmp(b, "serr ", 5)) return true;
+  return !strcmp(a, b);
+}
+
+// ---- "comments are accepted wherever white space is allowed": what a comment / processing instruction must not change ----
+// names, attributes (order, values), nesting, and between two child elements the concatenated character data.  A comment
+// counts as white space and the property text does not say which white space next to one is kept, so the character data
+// is compared without its white-space bytes.
+static void appendNoSpace(String& acc, const String& t)
+{
+  const char* b = (const char*)t; size_t n = t.length();
+  for(size_t i = 0; i < n; ++i)
+    if(!String::isSpace(b[i])) acc.append(b[i]);
+}
+static bool sameUpToGaps(const Xml::Element& a, const Xml::Element& b)
+{
+  if(a.type != b.type || a.attributes.size() != b.attributes.size()) return false;
+  HashMap<String, String>::Iterator i = a.attributes.begin(), j = b.attributes.begin();
+  for(HashMap<String, String>::Iterator end = a.attributes.end(); i != end; ++i, ++j)
+    if(i.key() != j.key() || *i != *j) return false;
+  List<Xml::Variant>::Iterator x = a.content.begin(), xe = a.content.end(), y = b.content.begin(), ye = b.content.end();
+  for(;;)
+  {
+    String ta, tb;
+    for(; x != xe && !(*x).isElement(); ++x) appendNoSpace(ta, (*x).toString());
+    for(; y != ye && !(*y).isElement(); ++y) appendNoSpace(tb, (*y).toString());
+    if(ta != tb) return false;
+    if(x == xe || y == ye) return x == xe && y == ye;
+    if(!sameUpToGaps((*x).toElement(), (*y).toElement())) return false;
+    ++x; ++y;
+  }
+}
+
 static void parseOut(const unsigned char* d, size_t n)
 {
   char* text = exactCopy(d, n);
@@ -254,7 +300,7 @@ static void op(long c, long, vh::Tok& t)
         bool ok2 = Xml::parse((const char*)text, fresh);
         ref = staticResultString(ok2, fresh);
       }
-      printf("%ld fload %d | %s\n", c, strcmp(ans, ref) ? 0 : 1, ans);
+      printf("%ld fload %d | %s\n", c, sameAnswer(ans, ref) ? 1 : 0, ans);
       free(ans); free(ref);
     }
     free(text);
@@ -327,7 +373,24 @@ static void op(long c, long, vh::Tok& t)
     printResult(ok, parser, target);
     printf("\n");
     removeScratch();
-  } else if(!strcmp(o, "parse")) {
+  } else if(!strcmp(o, "parseg") && t.n >= 3) {
+    // two documents: <plain> and <plain with comments (and processing instructions in front of the root) inserted where
+    // white space is allowed>.  first section: 1 iff both are accepted and give the same names, attributes, nesting and
+    // character data (sameUpToGaps), or both are rejected; then the two answers
+    char* text[2]; size_t len[2]; char* res[2]; bool ok[2];
+    Xml::Element el[2];
+    for(int k = 0; k < 2; ++k) {
+      unsigned char* d = vh::unhex(t.v[1 + k], len[k]);
+      text[k] = exactCopy(d, len[k]); free(d);
+      Xml::Parser parser;
+      String data; data.attach(text[k], len[k]);
+      ok[k] = parser.parse(data, el[k]);
+      res[k] = resultString(ok[k], parser, el[k]);
+    }
+    bool same = ok[0] == ok[1] && (!ok[0] || sameUpToGaps(el[0], el[1]));
+    printf("%ld %d | %s | %s\n", c, same ? 1 : 0, res[0], res[1]);
+    for(int k = 0; k < 2; ++k) { free(res[k]); free(text[k]); }
+  } else if(!strcmp(o, "parse") || !strcmp(o, "parseok")) {
     size_t n; unsigned char* d = vh::unhex(t.v[1], n);
     printf("%ld ", c);
     parseOut(d, n);
@@ -360,7 +423,7 @@ static void op(long c, long, vh::Tok& t)
       bool ok = parser.parse(data, target);
       res[k] = resultString(ok, parser, target);
       char* ref = freshResult(text, n);
-      if(strcmp(ref, res[k])) same = false;
+      if(!sameAnswer(ref, res[k])) same = false;
       free(ref); free(text);
     }
     printf("%ld %d | %s | %s\n", c, same ? 1 : 0, res[0], res[1]);
@@ -375,7 +438,11 @@ static void op(long c, long, vh::Tok& t)
     bool ok = parser.parse(data, target);
     char* r = resultString(ok, parser, target);
     char* ref = freshResult(text, n);
-    printf("%ld %d | %s\n", c, strcmp(ref, r) ? 0 : 1, r);
+    // third section: the Element the target was copied from ("copies are independent of their source": the parse clears
+    // the copy and appends to it - the source must still hold the tree that was built)
+    printf("%ld %d | %s |", c, sameAnswer(ref, r) ? 1 : 0, r);
+    if(root) dump(*root, false); else printf(" -");
+    printf("\n");
     free(ref); free(r); free(text);
   } else if(!strcmp(o, "rtinto")) {
     // toString of the tree built so far, parsed into an Element that holds a copy of that tree
@@ -468,6 +535,23 @@ static void op(long c, long, vh::Tok& t)
       long k = atol(t.v[3]); long n = 0;
       for(List<Xml::Variant>::Iterator it = e.content.begin(), end = e.content.end(); it != end; ++it, ++n)
         if(n == k) { Xml::Variant* nv = new Xml::Variant(*it); delete slot[i]; slot[i] = nv; break; }
+    }
+  } else if(!strcmp(o, "vassignsub")) {
+    // *slot[i] = <k-th content item of slot j>  through Variant::operator=(const Variant&); the right-hand side is a
+    // reference INTO slot j's element (for j == i: into the value that the assignment releases)
+    if(slotOk(t.v[1], i) && slotOk(t.v[2], j) && slot[j] && slot[j]->isElement()) {
+      const Xml::Element& e = ((const Xml::Variant*)slot[j])->toElement();
+      long k = atol(t.v[3]); long n = 0;
+      for(List<Xml::Variant>::Iterator it = e.content.begin(), end = e.content.end(); it != end; ++it, ++n)
+        if(n == k) { if(slot[i]) *slot[i] = *it; else slot[i] = new Xml::Variant(*it); break; }
+    }
+  } else if(!strcmp(o, "vassignsubm")) {
+    // node = node.toElement().content[k];   (mutable access first: a shared element is cloned, then replaced by its own child)
+    if(slotOk(t.v[1], i) && slot[i]) {
+      Xml::Element& e = slot[i]->toElement();
+      long k = atol(t.v[2]); long n = 0;
+      for(List<Xml::Variant>::Iterator it = e.content.begin(), end = e.content.end(); it != end; ++it, ++n)
+        if(n == k) { *slot[i] = *it; break; }
     }
   } else if(!strcmp(o, "vsubmut")) {
     if(slotOk(t.v[1], i) && slot[i] && slot[i]->isElement()) {
